@@ -193,6 +193,65 @@ func runLimit(c *core.Ctx) []core.Obligation {
 				badRet = c.InstrPos(ret)
 			}
 		}
+		// a helper that returns the comparison (func (d *decoder) tooDeep() bool): the containers
+		// are counted where the helper is called, and each caller is held to the same obligation
+		isHelper := false
+		for _, r := range returnsOf(s.fn) {
+			for _, res := range r.Results {
+				for _, o := range origins(res) {
+					if o == ssa.Value(s.bo) {
+						isHelper = true
+					}
+				}
+			}
+		}
+		if isHelper {
+			if node := c.CallGraph().Nodes[s.fn]; node != nil {
+				seenCaller := map[ssa.Instruction]bool{}
+				for _, e := range node.In {
+					if e.Site == nil || e.Site.Common().IsInvoke() || seenCaller[e.Site] || !c.InRepo(e.Caller.Func) {
+						continue
+					}
+					seenCaller[e.Site] = true
+					caller := e.Caller.Func
+					cname := shortName(caller)
+					count[cname]++
+					ckey := "limit:cmp:" + cname
+					if count[cname] > 1 {
+						ckey += fmt.Sprintf("#%d", count[cname])
+					}
+					b.addP(props, core.Discharged, ckey, c.InstrPos(e.Site), "the depth is counted and tested through "+s.fn.Name())
+					cbad := ""
+					for _, blk := range caller.Blocks {
+						ret, ok := blk.Instrs[len(blk.Instrs)-1].(*ssa.Return)
+						if !ok || len(ret.Results) == 0 || !isNilConst(ret.Results[len(ret.Results)-1]) {
+							continue
+						}
+						if e.Site.Block() == blk || e.Site.Block().Dominates(blk) {
+							continue
+						}
+						nullArm := false
+						for _, de := range dominatingEdges(blk) {
+							if call, isCall := de.ifi.Cond.(*ssa.Call); isCall && de.succ == 0 {
+								if f := staticCallee(call.Common()); f != nil && f.Name() == "hasNullPrefix" {
+									nullArm = true
+								}
+							}
+						}
+						if !nullArm {
+							cbad = c.InstrPos(ret)
+						}
+					}
+					cdkey := strings.Replace(ckey, "limit:cmp:", "limit:counted:", 1)
+					if cbad != "" {
+						b.addP(props, core.Violation, cdkey, cbad, cname+" returns success on a path that does not count the container it consumed against the nesting limit")
+					} else {
+						b.addP(props, core.Discharged, cdkey, c.InstrPos(e.Site), "every success return outside the null arm is dominated by the limit test")
+					}
+				}
+			}
+			continue
+		}
 		if badRet != "" {
 			b.addP(props, core.Violation, dkey, badRet, name+" returns success on a path that does not count the container it consumed against the nesting limit: a document one level deeper than encoding/json accepts passes through this path")
 		} else {
